@@ -412,8 +412,10 @@ class FuncGraph:
             n = test.left.id
             if isinstance(test.ops[0], ast.Is):
                 ef[n] = self.mk('refine', (env[n], 'notnone', None), test)
+                et[n] = self.mk('refine', (env[n], 'isnone', None), test)
             elif isinstance(test.ops[0], ast.IsNot):
                 et[n] = self.mk('refine', (env[n], 'notnone', None), test)
+                ef[n] = self.mk('refine', (env[n], 'isnone', None), test)
 
     def assigned_names(self, stmts):
         names, attrs = set(), set()
